@@ -244,7 +244,7 @@ func c15Nontrivial(c c15Case) bool {
 func TestVerifC15(t *testing.T) {
 	r := ev.Begin("C15", "enum")
 	defer r.End(t)
-	r.Rule = "route lists = all subsets (size<=K) of a 12-route pool (nested prefixes with equal and different base address, /128s, ::/0, IPv4, disjoint), each in all permutations, plus each list with one element duplicated, x 5 stanza variants (one deprecated, 20 min into its hour; two deprecated under a clock that advances 1 s per reading, mid-life and 1 s before the deadline: all routes of one RA carry one lifetime), + failing source; non-trivial = >=1 advertised route and (a dropped route or >=2 advertised); distinct = distinct ordered list x stanza"
+	r.Rule = "route lists = all subsets (size<=K) of a 12-route pool (nested prefixes with equal and different base address, /128s, ::/0, IPv4, disjoint), each in all permutations, plus each list with one element duplicated, x 5 stanza variants (one deprecated, 20 min into its hour; two deprecated under a clock that advances 1 s per reading, mid-life and 1 s before the deadline: all routes of one RA carry one lifetime), + dumps of 16-300 disjoint /48s (ascending, descending, interleaved, with covered and duplicate entries) + failing source; non-trivial = >=1 advertised route and (a dropped route or >=2 advertised); distinct = distinct ordered list x stanza"
 	r.Assumptions = []string{"route source replaced by an injected function (Route.Routes); the rtnetlink loopback-route dump is not covered"}
 
 	if r.Replay != nil {
@@ -288,6 +288,30 @@ func TestVerifC15(t *testing.T) {
 		}
 		return true
 	})
+	// Long dumps (no count the statement mentions bounds the expansion): 16, 17, 18, 20, 40
+	// and 300 disjoint /48s plus some covered and duplicate entries, ascending, descending
+	// and interleaved: all of the maximal ones, in ascending order.
+	for _, n := range []int{16, 17, 18, 20, 40, 300} {
+		var asc []c15Route
+		for i := 0; i < n; i++ {
+			asc = append(asc, c15Route{Class: "disjoint48", Prefix: fmt.Sprintf("2001:db8:%x::/48", i+1)})
+			if i%7 == 3 {
+				asc = append(asc, c15Route{Class: "covered64", Prefix: fmt.Sprintf("2001:db8:%x:1::/64", i+1)})
+			}
+		}
+		desc := make([]c15Route, len(asc))
+		for i := range asc {
+			desc[len(asc)-1-i] = asc[i]
+		}
+		var mix []c15Route
+		for i := 0; i < len(asc)/2; i++ {
+			mix = append(mix, asc[i], desc[i])
+		}
+		mix = append(mix, asc[len(asc)/2:]...)
+		for _, l := range [][]c15Route{asc, desc, mix} {
+			one(l)
+		}
+	}
 	for s := range c15Stanzas {
 		c := c15Case{Stanza: s, Fail: true}
 		r.Case(ev.JSON(c), true)
